@@ -269,6 +269,127 @@ async fn compact_case(case: &Value) -> Value {
         "compact_len": compacted.len(), "live": full.len()})
 }
 
+/// C02 step: V = build(reduce(L)); apply one EncryptedEntry operation; compare with build(reduce(L . event))
+async fn vault_step(case: &Value) -> Value {
+    use sos_core::events::EventLog;
+    use sos_reducers::FolderReducer;
+    use sos_vault::EncryptedEntry;
+    let vault = base_vault(&case["header_concrete"]);
+    let mut events = vec![vault.into_event().await.unwrap()];
+    for e in case["events_concrete"].as_array().unwrap() {
+        events.push(write_event_of(e));
+    }
+    let (p1, mut log) = folder_log(&events).await;
+    let mut v = FolderReducer::new().reduce(&log).await.unwrap().build(true).await.unwrap();
+    let o = &case["operation"];
+    let ev: Option<WriteEvent> = match o["op"].as_str().unwrap() {
+        "set_name" => Some(v.set_vault_name(o["name"].as_str().unwrap().to_string()).await.unwrap()),
+        "set_flags" => Some(
+            v.set_vault_flags(sos_core::VaultFlags::from_bits_truncate(o["bits"].as_u64().unwrap()))
+                .await
+                .unwrap(),
+        ),
+        "set_meta" => Some(v.set_vault_meta(aead_of(&o["aead"])).await.unwrap()),
+        "insert" => {
+            let c = commit_of(&o["value"]);
+            Some(v.insert_secret(uuid_of(o["id"].as_u64().unwrap()), c.0, c.1).await.unwrap())
+        }
+        "update" => {
+            let c = commit_of(&o["value"]);
+            v.update_secret(&uuid_of(o["id"].as_u64().unwrap()), c.0, c.1).await.unwrap()
+        }
+        "delete" => v.delete_secret(&uuid_of(o["id"].as_u64().unwrap())).await.unwrap(),
+        k => panic!("unknown op {}", k),
+    };
+    if let Some(ev) = &ev {
+        log.apply(std::slice::from_ref(ev)).await.unwrap();
+    }
+    let replayed = FolderReducer::new().reduce(&log).await.unwrap().build(true).await.unwrap();
+    // time travel: for every commit k, new_until_commit(k) == fold of the first k+1 events
+    let mut tt_bad = vec![];
+    let leaves = log.tree().leaves().unwrap_or_default();
+    let mut all_events = events.clone();
+    if let Some(ev) = &ev {
+        all_events.push(ev.clone());
+    }
+    for (k, leaf) in leaves.iter().enumerate() {
+        let a = FolderReducer::new_until_commit(CommitHash(*leaf)).reduce(&log).await.unwrap().build(true).await.unwrap();
+        let (p3, l3) = folder_log(&all_events[..=k]).await;
+        let b = FolderReducer::new().reduce(&l3).await.unwrap().build(true).await.unwrap();
+        let _ = std::fs::remove_file(p3);
+        if vault_summary(&a).await != vault_summary(&b).await {
+            tt_bad.push(k);
+        }
+    }
+    let a = vault_summary(&v).await;
+    let b = vault_summary(&replayed).await;
+    let _ = std::fs::remove_file(p1);
+    json!({"outcome":"ok","operated":a,"replayed":b,"event_emitted":ev.is_some(),"time_travel_mismatch":tt_bad})
+}
+
+/// A do-nothing AutoMerge implementor: `merge_patches` is a provided method that never touches
+/// the client or the account, so nothing here is ever called.
+struct Dummy;
+
+#[async_trait::async_trait]
+impl sos_remote_sync::RemoteSyncHandler for Dummy {
+    type Client = sos_protocol::network_client::HttpClient;
+    type Account = sos_account::LocalAccount;
+    type Error = sos_net::Error;
+    fn client(&self) -> &Self::Client {
+        unimplemented!()
+    }
+    fn origin(&self) -> &sos_core::Origin {
+        unimplemented!()
+    }
+    fn account_id(&self) -> &sos_core::AccountId {
+        unimplemented!()
+    }
+    fn account(&self) -> std::sync::Arc<tokio::sync::Mutex<Self::Account>> {
+        unimplemented!()
+    }
+    fn direction(&self) -> sos_sync::SyncDirection {
+        unimplemented!()
+    }
+    fn file_transfer_queue(&self) -> &sos_protocol::transfer::FileTransferQueueSender {
+        unimplemented!()
+    }
+    async fn execute_sync_file_transfers(&self) -> Result<(), Self::Error> {
+        unimplemented!()
+    }
+}
+
+#[async_trait::async_trait]
+impl sos_remote_sync::AutoMerge for Dummy {}
+
+fn record_of(v: &Value) -> EventRecord {
+    let secs = v["secs"].as_i64().unwrap();
+    let nanos = v["nanos"].as_u64().unwrap() as i64;
+    let t = time::OffsetDateTime::from_unix_timestamp(secs).unwrap() + time::Duration::nanoseconds(nanos);
+    let mut c = [0u8; 32];
+    c[0] = (v["commit"].as_u64().unwrap() & 0xff) as u8;
+    c[1] = ((v["commit"].as_u64().unwrap() >> 8) & 0xff) as u8;
+    EventRecord::new(t.into(), CommitHash([0u8; 32]), CommitHash(c), vec![])
+}
+
+fn record_json(r: &EventRecord) -> Value {
+    let c = r.commit().as_ref();
+    let t: time::OffsetDateTime = r.time().clone().into();
+    json!({"commit": (c[0] as u64) | ((c[1] as u64) << 8),
+           "secs": t.unix_timestamp(), "nanos": t.nanosecond()})
+}
+
+async fn merge_patches_case(case: &Value) -> Value {
+    use sos_remote_sync::{AutoMerge, AutoMergeStatus};
+    let local: Vec<EventRecord> = case["local"].as_array().unwrap().iter().map(record_of).collect();
+    let remote: Vec<EventRecord> = case["remote"].as_array().unwrap().iter().map(record_of).collect();
+    match Dummy.merge_patches(local, remote).await {
+        Ok(AutoMergeStatus::RewindLocal(v)) => json!({"outcome":"ok","status":"RewindLocal","records": v.iter().map(record_json).collect::<Vec<_>>()}),
+        Ok(AutoMergeStatus::PushRemote(v)) => json!({"outcome":"ok","status":"PushRemote","records": v.iter().map(record_json).collect::<Vec<_>>()}),
+        Err(e) => json!({"outcome":"err","detail":e.to_string()}),
+    }
+}
+
 static TMP_COUNTER: std::sync::atomic::AtomicUsize = std::sync::atomic::AtomicUsize::new(0);
 
 fn tmp_path(tag: &str) -> std::path::PathBuf {
@@ -333,6 +454,8 @@ pub async fn run(case: &Value) -> Value {
     let op = case.get("op").and_then(|v| v.as_str()).unwrap_or("");
     match op {
         "compact" => compact_case(case).await,
+        "merge_patches" => merge_patches_case(case).await,
+        "vault_step" => vault_step(case).await,
         "format_stream" => {
             let ty = case.get("ty").and_then(|v| v.as_str()).unwrap_or("");
             match ty {
